@@ -12,7 +12,8 @@ from ..core import Tally
 from .. import tlc
 
 ENGINE = "proofs"
-PROOFS = {"C01": ["BloomProof"]}
+PROOFS = {"C01": ["BloomProof"], "C09": ["ExpandingProof"], "C10": ["ExpandingProof"]}
+THEOREMS = {"BloomProof": "Spec => []NoFalseNegative", "ExpandingProof": "Spec => []Cap  and  Spec => NoEarlyGrowth (arbitrary est_elements, unbounded histories)"}
 # module, inductive invariant, the property it implies; the steps: Init => IndInv, IndInv /\ Next => IndInv', IndInv => property,
 # and a probe that must FAIL from IndInv (the invariant is not vacuous)
 INDUCTIVE = {"C02": [("CountMinInd", "IndInv", "Bounds")], "C08": [("CountingBloomInd", "IndInv", "Exact")]}
@@ -60,7 +61,7 @@ def run(focus, tier, seed):
             txt = out.stdout + out.stderr
             m = re.search(r"All (\d+) obligations? proved", txt)
             proved = len(re.findall(r"@!!status:proved", txt))
-            total.extra.setdefault("tlaps", []).append({"module": mod, "theorem": "Spec => []NoFalseNegative", "all_proved": bool(m), "obligations": int(m.group(1)) if m else None,
+            total.extra.setdefault("tlaps", []).append({"module": mod, "theorem": THEOREMS.get(mod, ""), "all_proved": bool(m), "obligations": int(m.group(1)) if m else None,
                                                         "proved_statuses": proved, "wall_s": round(time.time() - t0, 1)})
             if not m:
                 total.notes.append(f"TLAPS did not discharge every obligation of {mod} (extra evidence only)")
